@@ -152,6 +152,7 @@ def prop_C07(run):
     import rules_idx
     rules_idx.tab_idx(run)
     rules_idx.match_shape(run)
+    rules_idx.match_identity(run)
     run.rules_run += ["TAB-idx (case normalisation, token classes, whitespace skipping)", "MATCH shape of match_with_rule / match_instr selection"]
 
 
@@ -237,6 +238,7 @@ def prop_C06(run):
     rules_mpt.pipeline(run)
     rules_mpt.bitvec_rules(run)
     rules_mpt.overlap_rules(run)
+    rules_mpt.alignment_rules(run)
     rules_mpt.full_loops(run, "asm::output::fill_banks", what="every bank definition")
     rules_mpt.full_loops(run, "asm::output::check_bank_overlap", what="every pair of banks")
     n = lim2_obligations(run, only=lambda key, f: bool(__import__("re").search(r"asm::output|overlap_checker|resolver::iter|bitvec::BitVec::write|resolver::(res|align|addr)::|defs::bankdef", key)))
@@ -260,6 +262,10 @@ def prop_C12(run):
 def prop_C01(run):
     import rules_mpt, rules_rng, rules_err
     rules_mpt.rejections(run)
+    import rules_idx
+    rules_idx.match_shape(run)
+    rules_idx.match_identity(run)
+    rules_mpt.alignment_rules(run)
     rules_mpt.pipeline(run)
     rules_mpt.build_output_rules(run)
     # R4: out-of-range arguments are rejected (tables of C04) and never bound unchecked
@@ -272,6 +278,8 @@ def prop_C01(run):
 def prop_C14(run):
     import rules_mpt
     rules_mpt.inclusion(run)
+    import rules_cond
+    rules_cond.nested_include_rule(run)
     n = lim2_obligations(run, only=lambda key, f: "eval_builtin_inc" in key or "file_navigation" in key)
     run.rules_run += ["INC1 names reaching the file server are navigated", "INC2 navigation validates, confines `..`, <std>/ never touches the disk, who-may-touch the file system",
                       "INC3 include stack and #once", "INC4 range tests dominate the slice", "LIM2 on the range arithmetic"]
@@ -291,7 +299,22 @@ def prop_C15(run):
                       "SYM parse: one level per dot", "PIPE: all symbols are declared before anything is resolved"]
 
 
+def prop_C16(run):
+    import rules_cond, rules_mpt
+    rules_cond.resolve_ifs_rules(run)
+    rules_cond.leftover_rules(run)
+    rules_cond.define_rules(run)
+    rules_cond.arm_reader_rules(run)
+    rules_cond.prepass_loop_rules(run)
+    rules_cond.nested_include_rule(run)
+    rules_mpt.pipeline(run)
+    run.rules_run += ["COND resolve_ifs: decided #if replaced in place by exactly the selected arm", "COND leftover #if always fails with a message",
+                      "COND command-line definitions override first, freeze, and unused ones fail", "COND who-reads the arms of an #if",
+                      "COND pre-pass is an unbounded fixed point", "INC nested include", "PIPE leftover check before definitions/matching; unused-define check before output"]
+
+
 PROPS = {
+    "C16": prop_C16,
     "C15": prop_C15,
     "C14": prop_C14,
     "C01": prop_C01,
